@@ -13,6 +13,21 @@ Definition itemsN (cs : list N) : list item := map (fun c => IInt (Z.of_N c)) cs
 Lemma norm_items_ints cs : map norm_item (itemsN cs) = itemsN cs.
 Proof. unfold itemsN. rewrite map_map. reflexivity. Qed.
 
+(* the stricter token conversion of parse_graphic_sequence (F33) agrees with norm_item on integers and on printed numbers *)
+Lemma norm_items_pgs_ints cs : map norm_item_pgs (itemsN cs) = itemsN cs.
+Proof. unfold itemsN. rewrite map_map. reflexivity. Qed.
+
+Lemma dec_N_digits x : forallb is_digit (dec (Z.of_N x)) = true.
+Proof. destruct x as [|p]; [reflexivity|]. cbn [Z.of_N dec]. apply DecProofs.decN_digits. Qed.
+
+Lemma norm_item_pgs_dec x : norm_item_pgs (IStr (dec (Z.of_N x))) = norm_item (IStr (dec (Z.of_N x))).
+Proof.
+  unfold norm_item_pgs. rewrite strip_ws_dec. rewrite dec_N_digits.
+  destruct (dec (Z.of_N x)) as [|d0 d] eqn:Ed.
+  - exfalso. destruct x as [|p]; cbn [Z.of_N dec] in Ed; [discriminate|]. now apply (DecProofs.decN_nonempty (N.pos p)).
+  - reflexivity.
+Qed.
+
 Lemma to_list_textN g : g <> [] -> to_list (textN g) = itemsN g.
 Proof.
   intros Hg. unfold to_list, textN, text_of_items.
@@ -186,7 +201,7 @@ Proof.
   destruct cs as [|c r]; [congruence|].
   change (itemsN (c :: r)) with (IInt (Z.of_N c) :: itemsN r).
   change (IInt (Z.of_N c) :: itemsN r) with (itemsN (c :: r)).
-  rewrite norm_items_ints. change (@nil Z) with (map Z.of_N []). apply pgs_loop_N.
+  rewrite norm_items_pgs_ints. change (@nil Z) with (map Z.of_N []). apply pgs_loop_N.
 Qed.
 
 (* ---------- dictionaries against terminal states ---------- *)
@@ -529,7 +544,7 @@ Proof.
   destruct cs as [|c r]; [congruence|].
   change (itemsN (c :: r)) with (IInt (Z.of_N c) :: itemsN r).
   change (IInt (Z.of_N c) :: itemsN r) with (itemsN (c :: r)).
-  rewrite norm_items_ints. exact (pgs_loop_ae (c :: r) 0%nat []).
+  rewrite norm_items_pgs_ints. exact (pgs_loop_ae (c :: r) 0%nat []).
 Qed.
 
 (* ---------- ';'-separated string input = list input ---------- *)
@@ -543,13 +558,13 @@ Proof.
   { unfold textN, text_of_items. destruct cs as [|c [|c' r]]; [congruence| |]; cbn [map join].
     - apply dec_not_nil.
     - pose proof (dec_not_nil (Z.of_N c)). destruct (dec (Z.of_N c)); simpl; congruence. }
-  assert (Hitems : map norm_item (items_of_str (textN cs)) = map norm_item (itemsN cs)).
+  assert (Hitems : map norm_item_pgs (items_of_str (textN cs)) = map norm_item_pgs (itemsN cs)).
   { unfold items_of_str, textN, text_of_items.
     rewrite split_join_dec by (destruct cs; simpl; congruence).
     unfold itemsN. rewrite !map_map. apply map_ext. intros x.
     rewrite strip_ws_dec. pose proof (dec_not_nil (Z.of_N x)) as Hx.
     destruct (dec (Z.of_N x)) as [|d0 d] eqn:Ed; [congruence|]. cbn [is_nil]. rewrite <- Ed.
-    unfold norm_item. now rewrite parse_int_dec. }
+    rewrite norm_item_pgs_dec. unfold norm_item. now rewrite parse_int_dec. }
   destruct (textN cs) as [|w0 w] eqn:Ew; [congruence|]. rewrite Hitems.
   destruct cs as [|c r]; [congruence|]. reflexivity.
 Qed.
